@@ -152,7 +152,7 @@ Lemma fcd_fold projs polarized : forall cd acc, length acc = size (spec_shape pr
   forall i, get (fold_left (fcd_step (F:=R) projs polarized) cd acc) i = get acc i + cd_val projs polarized cd i.
 Proof. induction cd as [|[[[succ der] pol] cnt] cd IH]; intros acc La Fk; cbn.
   - split; [assumption|]. intros; unfold cd_val; cbn; lra.
-  - inversion Fk as [|? ? [Ls Ld] Fk']; subst. cbn in Ls, Ld.
+  - inversion Fk as [|? ? Hk Fk']; subst. cbn in Hk. destruct Hk as [Ls Ld].
     assert (Lc : length (vscaleR (nofnat cnt) (snp_contrib (F:=R) projs succ der)) = size (spec_shape projs))
       by (rewrite vscale_length; apply snp_contrib_length; assumption).
     destruct (polarized && negb pol)%bool eqn:E.
